@@ -142,6 +142,14 @@ type Finding struct {
 	Input    string `json:"input"` // the failing input / history / call site
 	State    string `json:"state"` // "known" or "fixed"
 	Commit   string `json:"commit,omitempty"`
+	Count    int    `json:"count,omitempty"` // occurrences of the key covered (default 1)
+}
+
+func max1(n int) int {
+	if n < 1 {
+		return 1
+	}
+	return n
 }
 
 type FindingsFile struct {
@@ -209,11 +217,15 @@ func RunOne(p *ir.P, ch *Check, tier string, seed int, ff *FindingsFile, verifDi
 		}
 	}
 	seenKnown := map[string]bool{}
+	usedKnown := map[string]int{}
 	for i := range c.Obls {
 		o := &c.Obls[i]
 		switch o.Status {
 		case Violation:
-			if _, ok := known[o.Key()]; ok {
+			if kf, ok := known[o.Key()]; ok && usedKnown[o.Key()] < max1(kf.Count) {
+				// a listed finding suppresses at most Count occurrences of its key:
+				// one more violation with the same key is a new violation
+				usedKnown[o.Key()]++
 				o.Known = true
 				res.Known = append(res.Known, *o)
 				seenKnown[o.Key()] = true
